@@ -64,6 +64,117 @@ def last_attr(e):
     return ast.unparse(e).split('.')[-1]
 
 
+import copy
+
+PRIMITIVES = {'fftrange', 'fftfreq', 'make_xy_grid', 'pad2d', 'crop_center'}     # read by their own items, never inlined
+
+
+def _bound_names(e):
+    """names bound inside expression e (comprehension targets, lambda parameters)"""
+    out = set()
+    for n in ast.walk(e):
+        if isinstance(n, ast.comprehension):
+            out |= {t.id for t in ast.walk(n.target) if isinstance(t, ast.Name)}
+        elif isinstance(n, ast.Lambda):
+            out |= {a.arg for a in n.args.args}
+    return out
+
+
+def _free_names(e):
+    return {n.id for n in ast.walk(e) if isinstance(n, ast.Name)} - _bound_names(e)
+
+
+def subst(e, mapping):
+    """copy of expression e with the free names in `mapping` replaced by (copies of) their expressions; refuses
+    (Untranslatable) when a comprehension / lambda variable of e would capture or shadow one of them"""
+    bound = _bound_names(e)
+    if bound & set(mapping) or any(bound & _free_names(v) for k, v in mapping.items() if k in _free_names(e)):
+        raise Untranslatable('substitution would capture a comprehension variable')
+
+    class S(ast.NodeTransformer):
+        def visit_Name(self, n):
+            if isinstance(n.ctx, ast.Load) and n.id in mapping:
+                return copy.deepcopy(mapping[n.id])
+            return n
+    return ast.fix_missing_locations(S().visit(copy.deepcopy(e)))
+
+
+def straight_return(h):
+    """the value a straight-line function returns, as ONE expression over its parameters (its own `name = expr`
+    locals substituted); None when the body is anything else"""
+    body = [s_ for s_ in h.body if not (isinstance(s_, ast.Expr) and isinstance(s_.value, ast.Constant))]
+    if not body or not isinstance(body[-1], ast.Return) or body[-1].value is None \
+            or h.args.vararg or h.args.kwarg or h.decorator_list:
+        return None
+    loc = {}
+    try:
+        for s_ in body[:-1]:
+            if isinstance(s_, ast.Assign) and len(s_.targets) == 1 and isinstance(s_.targets[0], ast.Name):
+                loc[s_.targets[0].id] = subst(s_.value, loc)
+            else:
+                return None
+        return subst(body[-1].value, loc)
+    except Untranslatable:
+        return None
+
+
+def inline_helpers(mod, fn, cls=None, depth=3):
+    """copy of FunctionDef fn in which every call of a same-module straight-line helper function (or `self.helper(...)`
+    of the same class) is replaced by the helper's return expression with the arguments substituted for its parameters"""
+    table = {n.name: n for n in mod.body if isinstance(n, ast.FunctionDef)}
+    methods = {n.name: n for n in (cls.body if cls is not None else []) if isinstance(n, ast.FunctionDef)}
+
+    class I(ast.NodeTransformer):
+        def visit_Call(self, c):
+            self.generic_visit(c)
+            h, skip = None, False
+            if isinstance(c.func, ast.Name):
+                h = table.get(c.func.id)
+            elif isinstance(c.func, ast.Attribute) and ast.unparse(c.func.value) == 'self':
+                h, skip = methods.get(c.func.attr), True
+            if h is None or h is fn or h.name == fn.name or h.name in PRIMITIVES:
+                return c
+            ret = straight_return(h)
+            if ret is None:
+                return c
+            try:
+                b = bind_call(c, h, skip_self=skip)
+                pos, kwonly = params_of(h, skip_self=skip)
+                dflt = dict(zip(pos[len(pos) - len(h.args.defaults):], h.args.defaults))
+                dflt.update({k: d for k, d in zip(kwonly, h.args.kw_defaults) if d is not None})
+                for p_ in pos + kwonly:
+                    if p_ not in b:
+                        if p_ not in dflt:
+                            return c
+                        b[p_] = dflt[p_]
+                return subst(ret, b)
+            except Untranslatable:
+                return c
+    out = copy.deepcopy(fn)
+    for _ in range(depth):
+        before = ast.dump(out)
+        out = ast.fix_missing_locations(I().visit(out))
+        if ast.dump(out) == before:
+            break
+    return out
+
+
+def expand_locals(e, fn, stop=()):
+    """expression e with every local of fn that is assigned exactly once (also through `a, b = u, v`) replaced by its
+    value, recursively; parameters, names in `stop` and names assigned more than once are left alone"""
+    params = set(sum(params_of(fn), []))
+    for _ in range(6):
+        m = {}
+        for nm in _free_names(e) - params - set(stop):
+            vs = find_assigns(fn, nm)
+            if len(vs) == 1:
+                m[nm] = vs[0]
+        if not m:
+            return e
+        e = subst(e, m)
+    return e
+
+
 def straight_env(fn, env, mode='int'):
     """extend env with the top-level `name = expr` statements of fn (in order) that translate"""
     env = dict(env)
@@ -157,6 +268,15 @@ def branch_on(fn, flag_texts):
         a = list(st.body) + ([] if _returns(st.body) else rest)
         b = list(st.orelse) + ([] if _returns(st.orelse) else rest)
         return (b, a) if neg else (a, b)
+    # conditional-expression form: `return A if <flag> else B`
+    for st in fn.body:
+        if isinstance(st, ast.Return) and isinstance(st.value, ast.IfExp):
+            t, neg = st.value.test, False
+            if isinstance(t, ast.UnaryOp) and isinstance(t.op, ast.Not):
+                neg, t = True, t.operand
+            if ast.unparse(t) in flag_texts:
+                a, b = [ast.Return(value=st.value.body)], [ast.Return(value=st.value.orelse)]
+                return (b, a) if neg else (a, b)
     raise Untranslatable(f'no branch on {flag_texts}')
 
 
@@ -180,9 +300,14 @@ def generate(repo):
     rd, _ = load(repo, 'prysm/_richdata.py')
     pr, _ = load(repo, 'prysm/propagation.py')
 
+    def inl(mod, dotted):
+        """the definition with same-module straight-line helpers inlined"""
+        cls = get_def(mod, dotted.rsplit('.', 1)[0]) if '.' in dotted else None
+        return inline_helpers(mod, get_def(mod, dotted), cls)
+
     # ---- fftrange(n) = arange(lo, hi)      (also: arange(n) - c ; locals are resolved)
     def fftrange():
-        fn = get_def(ft, 'fftrange')
+        fn = inl(ft, 'fftrange')
         env = straight_env(fn, {'n': 'n'})
         (ret,) = find_returns(fn)
         tr = Tr(env)
@@ -222,7 +347,7 @@ def generate(repo):
         return elem
 
     def pad_before_after():
-        fn = get_def(ft, 'pad2d')
+        fn = inl(ft, 'pad2d')
         elem = pad_env(fn)
         if 'pad_shape' in elem:
             raise Untranslatable('pad_shape is a comprehension of scalars')
@@ -278,7 +403,7 @@ def generate(repo):
         return elt.args
 
     def pad_slice():
-        fn = get_def(ft, 'pad2d')
+        fn = inl(ft, 'pad2d')
         elem = pad_env(fn)
         elt, binds = comp_parts(find_assign(fn, 'slcs'))
         lo, hi = slice_call(elt)
@@ -293,7 +418,7 @@ def generate(repo):
            f'def padSliceLo (n N : Int) : Int := {M}.padBefore n N\ndef padSliceHi (n N : Int) : Int := {M}.padBefore n N + n')
 
     def pad_outlen():
-        fn = get_def(ft, 'pad2d')
+        fn = inl(ft, 'pad2d')
         term = elementwise(find_assign(fn, 'out_shape', which=0), {'in_shape': 'n', 'array.shape': 'n'}, mode='rat',
                            scalars={'Q': 'Q'})
         return f'def padOutLen (n Q : Rat) : Rat := {term}'
@@ -321,12 +446,12 @@ def generate(repo):
                         f'def {prefix}1 (N : Int) : Int := {terms[1]}')
         raise Untranslatable('no isinstance(out_shape, int) branch')
     g.item('pad2d.int_out_shape', 'prysm/fttools.py:pad2d', lambda: get_def(ft, 'pad2d'),
-           lambda: int_shape(get_def(ft, 'pad2d'), 'padIntShape'),
+           lambda: int_shape(inl(ft, 'pad2d'), 'padIntShape'),
            'def padIntShape0 (N : Int) : Int := N\ndef padIntShape1 (N : Int) : Int := N')
 
     # ---- crop_center
     def crop():
-        fn = get_def(ft, 'crop_center')
+        fn = inl(ft, 'crop_center')
         elem = {'img.shape': 'n', 'out_shape': 'N'}
         names = [t.id for st in ast.walk(fn) if isinstance(st, ast.Assign) for t in st.targets if isinstance(t, ast.Name)]
         for _ in range(3):
@@ -348,23 +473,30 @@ def generate(repo):
     g.item('crop_center', 'prysm/fttools.py:crop_center', lambda: get_def(ft, 'crop_center'), crop,
            f'def cropLo (n N : Int) : Int := {M}.cropLeft n N\ndef cropHi (n N : Int) : Int := {M}.cropLeft n N + N')
     g.item('crop_center.int_out_shape', 'prysm/fttools.py:crop_center', lambda: get_def(ft, 'crop_center'),
-           lambda: int_shape(get_def(ft, 'crop_center'), 'cropIntShape'),
+           lambda: int_shape(inl(ft, 'crop_center'), 'cropIntShape'),
            'def cropIntShape0 (N : Int) : Int := N\ndef cropIntShape1 (N : Int) : Int := N')
 
-    # ---- psf.centroid: reference index and the returned expression of both units
-    def centroid():
-        fn = get_def(psf, 'centroid')
-        term = elementwise(find_assign(fn, 'center'), {'data.shape': 'n'})
-        return f'def centroidRef (n : Int) : Int := {term}'
-    g.item('centroid.center', 'prysm/psf.py:centroid', lambda: get_def(psf, 'centroid'), centroid,
-           f'def centroidRef (n : Int) : Int := {M}.centroidRef n')
-
-    def centroid_return():
-        fn = get_def(psf, 'centroid')
-        com = find_assign(fn, 'com')
-        if not (isinstance(com, ast.Call) and last_attr(com.func) == 'center_of_mass' and len(com.args) == 1
-                and ast.unparse(com.args[0]) == 'data' and not com.keywords):
-            raise Untranslatable('com is not center_of_mass(data)')
+    # ---- psf.centroid: reference index and the returned expression of both units (locals found by ROLE, not by name)
+    def centroid_parts():
+        fn = inl(psf, 'centroid')
+        data = params_of(fn)[0][0]
+        coms = [t.id for st in ast.walk(fn) if isinstance(st, ast.Assign) and isinstance(st.value, ast.Call)
+                and last_attr(st.value.func) == 'center_of_mass' and len(st.value.args) == 1 and not st.value.keywords
+                and ast.unparse(st.value.args[0]) == data for t in st.targets if isinstance(t, ast.Name)]
+        if len(coms) != 1:
+            raise Untranslatable('no single local holding center_of_mass(data)')
+        com = coms[0]
+        # every local that is a comprehension over data.shape (to a fixpoint): candidates for the per-axis reference
+        ielem = {f'{data}.shape': 'n'}
+        names = [t.id for st in ast.walk(fn) if isinstance(st, ast.Assign) for t in st.targets if isinstance(t, ast.Name)]
+        for _ in range(3):
+            for nm in names:
+                if nm in ielem or nm == com:
+                    continue
+                try:
+                    ielem[nm] = elementwise(find_assign(fn, nm, which=-1), ielem)
+                except Untranslatable:
+                    pass
         branch = None
         for k, st in enumerate(fn.body):
             if isinstance(st, ast.If) and isinstance(st.test, ast.Compare) and ast.unparse(st.test.left) == 'unit' \
@@ -373,20 +505,33 @@ def generate(repo):
                 if not isinstance(st.test.ops[0], (ast.Eq, ast.NotEq)) or word not in ('spatial', 'pixels'):
                     raise Untranslatable('test on unit')
                 rest = fn.body[k + 1:]
-                a = list(st.body) + ([] if _returns(st.body) else rest)
-                b = list(st.orelse) + ([] if _returns(st.orelse) else rest)
+                a_ = list(st.body) + ([] if _returns(st.body) else rest)
+                b_ = list(st.orelse) + ([] if _returns(st.orelse) else rest)
                 body_is_spatial = (word == 'spatial') == eq
-                branch = (a, b) if body_is_spatial else (b, a)
+                branch = (a_, b_) if body_is_spatial else (b_, a_)
         if branch is None:
             raise Untranslatable('no branch on unit')
         spatial, pixels = the_return(branch[0]), the_return(branch[1])
-        # `center` is consumed lazily (generator): it must not be iterated before the return
-        cterm = '((centroidRef n : Int) : Rat)'
-        s_term = elementwise(spatial, {'com': 'com', 'center': cterm}, mode='rat', scalars={'dx': 'dx'})
-        if isinstance(pixels, ast.Name) and pixels.id == 'com':
+        _, binds = comp_parts(spatial)
+        refs = [src for src in binds.values() if src != com]
+        if len(refs) != 1 or refs[0] not in ielem or refs[0] == f'{data}.shape' or com not in binds.values():
+            raise Untranslatable('spatial return does not zip the centre of mass with one per-axis reference list')
+        ref = refs[0]
+        relem = {com: 'com', ref: '((centroidRef n : Int) : Rat)'}
+        s_term = elementwise(spatial, relem, mode='rat', scalars={'dx': 'dx'})
+        if isinstance(pixels, ast.Name) and pixels.id == com:
             p_term = 'com'
         else:
-            p_term = elementwise(pixels, {'com': 'com', 'center': cterm}, mode='rat', scalars={'dx': 'dx'})
+            p_term = elementwise(pixels, relem, mode='rat', scalars={'dx': 'dx'})
+        return ielem[ref], s_term, p_term
+
+    def centroid():
+        return f'def centroidRef (n : Int) : Int := {centroid_parts()[0]}'
+    g.item('centroid.center', 'prysm/psf.py:centroid', lambda: get_def(psf, 'centroid'), centroid,
+           f'def centroidRef (n : Int) : Int := {M}.centroidRef n')
+
+    def centroid_return():
+        _, s_term, p_term = centroid_parts()
         return (f'def centroidSpatialElem (dx com : Rat) (n : Int) : Rat := {s_term}\n'
                 f'def centroidPixelsElem (com : Rat) (n : Int) : Rat := {p_term}')
     g.item('centroid.return', 'prysm/psf.py:centroid', lambda: get_def(psf, 'centroid'), centroid_return,
@@ -395,7 +540,7 @@ def generate(repo):
 
     # ---- make_xy_grid: symbolic reading of the whole body
     def xy_grid():
-        fn = get_def(co, 'make_xy_grid')
+        fn = inl(co, 'make_xy_grid')
         pos, kwonly = params_of(fn)
         if 'shape' not in pos + kwonly:
             raise Untranslatable('no shape parameter')
@@ -546,11 +691,13 @@ def generate(repo):
 
     # ---- forward_ft_unit: unit = fftfreq(samples, dx); shift -> fftshift(unit) else unit
     def ft_unit():
-        fn = get_def(ft, 'forward_ft_unit')
+        fn = inl(ft, 'forward_ft_unit')
         wrapper = get_def(ft, 'fftfreq')
-        unit = find_assign(fn, 'unit')
-        if not (isinstance(unit, ast.Call) and last_attr(unit.func) == 'fftfreq'):
-            raise Untranslatable('unit is not fftfreq(...)')
+        units = [(t.id, st.value) for st in ast.walk(fn) if isinstance(st, ast.Assign) and isinstance(st.value, ast.Call)
+                 and last_attr(st.value.func) == 'fftfreq' for t in st.targets if isinstance(t, ast.Name)]
+        if len(units) != 1:
+            raise Untranslatable('no single local holding fftfreq(...)')
+        uname, unit = units[0]
         b = bind_call(unit, wrapper)
         if ast.unparse(b.get('n')) != 'samples' or ast.unparse(b.get('d')) != 'dx':
             raise Untranslatable(f'fftfreq called with n={ast.unparse(b.get("n"))}, d={ast.unparse(b.get("d"))}')
@@ -561,9 +708,10 @@ def generate(repo):
         freq = f'({M}.fftfreqOf (npFftfreqSplit n) (npFftfreqP1Lo n) (npFftfreqP2Lo n)'
 
         def vec(e):
-            if isinstance(e, ast.Name) and e.id == 'unit':
+            e = expand_locals(e, fn, stop=(uname,))
+            if isinstance(e, ast.Name) and e.id == uname:
                 return f'{freq} i)'
-            if isinstance(e, ast.Call) and len(e.args) == 1 and not e.keywords and ast.unparse(e.args[0]) == 'unit':
+            if isinstance(e, ast.Call) and len(e.args) == 1 and not e.keywords and ast.unparse(e.args[0]) == uname:
                 by = {'fftshift': 'npFftshiftBy', 'ifftshift': 'npIfftshiftBy'}.get(last_attr(e.func))
                 if by:
                     return f'{freq} ({M}.rollSrc n ({by} n) i))'
@@ -579,12 +727,14 @@ def generate(repo):
         out = []
         by = {'fftshift': 'npFftshiftBy', 'ifftshift': 'npIfftshiftBy'}
         for fname, want in (('focus', 'fft2'), ('unfocus', 'ifft2')):
-            fn = get_def(pr, fname)
+            fn = inl(pr, fname)
             chains = []
             for c in ast.walk(fn):
                 if isinstance(c, ast.Call) and last_attr(c.func) in by and len(c.args) == 1 and isinstance(c.args[0], ast.Call) \
                         and last_attr(c.args[0].func) in ('fft2', 'ifft2', 'fftn', 'ifftn'):
-                    mid = c.args[0]
+                    mid = copy.copy(c.args[0])
+                    if mid.args and isinstance(mid.args[0], ast.Name):
+                        mid.args = [expand_locals(mid.args[0], fn)] + list(mid.args[1:])
                     if mid.args and isinstance(mid.args[0], ast.Call) and last_attr(mid.args[0].func) in by \
                             and len(mid.args[0].args) == 1:
                         chains.append((last_attr(mid.args[0].func), last_attr(mid.func), last_attr(c.func)))
@@ -622,7 +772,7 @@ def generate(repo):
 
     # ---- RichData.slices: the vectors handed to Slices(x=, y=)
     def rich_slices():
-        fn = get_def(rd, 'RichData.slices')
+        fn = inl(rd, 'RichData.slices')
         ctor = get_def(rd, 'Slices.__init__')
         state = {}
         for st in fn.body:
@@ -653,7 +803,7 @@ def generate(repo):
 
     # ---- Slices.__init__: centre indices
     def slices_centre():
-        fn = get_def(rd, 'Slices.__init__')
+        fn = inl(rd, 'Slices.__init__')
         alias = {'x': 'x', 'y': 'y'}
         for st in fn.body:
             if isinstance(st, ast.Assign) and ast.unparse(st.targets[0]) in ('self._x', 'self._y') \
@@ -665,6 +815,7 @@ def generate(repo):
         shape_env = {'data.shape[0]': 'm', 'data.shape[1]': 'n', 'self._source.shape[0]': 'm', 'self._source.shape[1]': 'n'}
 
         def one(v):
+            v = expand_locals(v, fn)
             name = argmin_abs_of(v, set(alias))
             if name is not None:
                 w = alias[name]
@@ -678,10 +829,11 @@ def generate(repo):
             if not set(names) & {'self.center_x', 'self.center_y'}:
                 continue
             if isinstance(tg, ast.Tuple):
-                if isinstance(st.value, ast.Tuple):
-                    terms = [one(v) for v in st.value.elts]
+                val = st.value if isinstance(st.value, ast.Tuple) else expand_locals(st.value, fn)
+                if isinstance(val, ast.Tuple):
+                    terms = [one(v) for v in val.elts]
                 else:
-                    elt, binds = comp_parts(st.value)
+                    elt, binds = comp_parts(val)
                     (var, src), = binds.items()
                     if src not in ('data.shape', 'self._source.shape'):
                         raise Untranslatable('centre comprehension source')
